@@ -157,6 +157,9 @@ def _run_shard(args: tuple) -> dict:
     t_end = time.time() + budget_s
     try:
         mod = load_prop(pid)
+        if shard == 0:
+            for name, case in corpus_cases(pid):
+                _one(mod, case, col, 'corpus')
         for job in mod.jobs(tier):
             if job.kind == 'hyp':
                 _run_hyp(mod, job, col, seed, shard, nshards, t_end)
@@ -215,6 +218,19 @@ def _run_hyp(mod: Any, job: Job, col: Collector, seed: int, shard: int, nshards:
         _one(mod, case, col, job.name)
 
     test()
+
+
+def corpus_cases(pid: str) -> list:
+    """Committed minimal cases (regressions of fixed defects, triggers of open findings): run first in every tier."""
+    d = os.path.join(ROOT, 'corpus', pid)
+    out = []
+    if os.path.isdir(d):
+        for name in sorted(os.listdir(d)):
+            if name.endswith('.json'):
+                with open(os.path.join(d, name)) as f:
+                    doc = json.load(f)
+                out.append((name, doc['case'] if isinstance(doc, dict) and 'case' in doc else doc))
+    return out
 
 
 def load_prop(pid: str) -> Any:
